@@ -127,10 +127,14 @@ CHECKS = {
             {"args": ["repo", "-impl", "ent", "-avoid", "like-case,json-path-key", "-n", str(n), "-len", str(ln)]},
             {"args": ["repo", "-impl", "ent", "-adversarial", "-findheavy", "-avoid", "like-case,json-path-key",
                       "-n", str(n), "-len", str(ln)]},
+            {"args": ["repo", "-impl", "ent", "-profile", "recover", "-findheavy", "-avoid", "like-case,json-path-key",
+                      "-n", str(max(n // 2, 100)), "-len", str(ln)], "seed_off": 21},
         ])(*{"quick": (300, 40), "thorough": (6000, 60), "widen": (2000, 50)}[tier]),
         "rule": "Find with type-directed queries generated from the current contents (each matcher built from a stored "
                 "task's own value, then perturbed), offsets 0..2, limits {-1,1,2,5}; compared with Spec (DIFF find) and "
-                "with the declarative window over the implementation's own dump (Mon.c11)",
+                "with the declarative window over the implementation's own dump (Mon.c11, stored times compared at "
+                "millisecond precision); one ent run interleaves the recovery operations (RevertDispatched / CancelDispatched / "
+                "DeleteEnded) with find-heavy queries, so that the timestamps THEY write are queried too",
         "trusted_base": COMMON_TB + ["for ent the generated SQL is not modelled: ent is held to the specification only "
                                      "by this correspondence"],
         "assumptions": REPO_ASSUME,
@@ -186,7 +190,9 @@ CHECKS = {
                              [{"args": ["crash", "-n", str({"quick": 10, "thorough": 400, "widen": 60}[tier]), "-len", "30",
                                         "-random", "20", "-stmts", "60"], "seed_off": 5},
                               {"args": ["pipe", "-n", str({"quick": 60, "thorough": 6000, "widen": 600}[tier]), "-tasks", "25"],
-                               "seed_off": 6}],
+                               "seed_off": 6},
+                              {"args": ["repo", "-impl", "entfault", "-avoid", "like-case,json-path-key", "-workers", "4", "-n",
+                                        str({"quick": 200, "thorough": 4000, "widen": 1000}[tier]), "-len", "40"], "seed_off": 7}],
         "rule": "lifecycle histories on ent/SQLite (in-memory and file-backed) interleaved with RevertDispatched / "
                 "CancelDispatched / DeleteEnded, compared with Spec.Repo after every op (result, full dump, GetNext); "
                 "the reverted tasks' later behaviour is checked by the C01/C12/C13 monitors on the same traces; crash runs: a "
@@ -208,7 +214,10 @@ CHECKS = {
                 "are recorded with the right outcome, no work function started twice or for a task that is not durably "
                 "dispatched, nothing is recorded as finished whose work function did not finish; then the content is "
                 "adopted by the specification and RevertDispatched / CancelDispatched plus a continued workload are "
-                "checked against it as in the crash runs",
+                "checked against it as in the crash runs; statement FAILURES (`repo -impl entfault`): file-backed ent on the gating "
+                "SQL driver, one call in six gets one of its first four statement boundaries (Exec / Query / Commit) failed by the "
+                "driver (a failed Commit rolls back); the call may fail without effect or succeed with its effect — an error "
+                "together with an effect is MON C01, an acknowledgement (nil) whose mutation is absent is MON C13",
         "trusted_base": COMMON_TB + ["SQLite's durability of an acknowledged auto-committed statement across SIGKILL and its "
                                      "atomic application of an unacknowledged one are sampled by the kill runs, not proved",
                                      "pipeline kills: what was acknowledged is read off the child's stdout; the side-effect log is fsynced per line"],
@@ -263,6 +272,7 @@ CHECKS = {
     },
     "C08": {
         "family": "pool", "level": "proof", "modules": ["Gk.Props.C08"], "components": ["pool"],
+        "extra_mon": {"C09": r"^stress "},   # the hand-off stress (disp family): a dispatch reported as accepted was run by a worker
         "runs": lambda tier: [{"args": ["pool", "-n", str({"quick": 150, "thorough": 3000, "widen": 600}[tier]), "-len", "16"]},
                               {"args": ["disp"]}],
         "rule": "real WorkerPoolDispatcher with gated work functions: random sequences of Add/Remove/Dispatch/"
@@ -277,13 +287,14 @@ CHECKS = {
     },
     **{pid: {
         "family": "sched", "level": "proof", "modules": ["Gk.Props." + pid],
-        "components": ["sched", "schedcron"] + (["corefault"] if pid == "C20" else []),
+        "components": ["sched", "schedcron"] + (["corefault"] if pid == "C20" else []) + (["hook"] if pid == "C05" else []),
         "runs": (lambda pid: lambda tier: (lambda n: [
             {"args": ["sched", "-n", str(n), "-len", "25", "-slots", "0"] + (["-faults", "1"] if pid == "C20" else [])},
             {"args": ["sched", "-n", str(n), "-len", "25", "-slots", "0", "-faults", "2" if pid == "C20" else "1"], "seed_off": 50},
             {"args": ["sched", "-n", str(n), "-len", "20", "-slots", "0", "-ties"] + (["-faults", "1"] if pid == "C20" else []), "seed_off": 70},
             {"args": ["sched", "-cron", "-n", str(max(n // 3, 100)), "-len", "25", "-slots", "0"] + (["-faults", "1"] if pid == "C20" else []), "seed_off": 90},
-        ] + ([{"args": ["disp"]}] if pid == "C06" else []) + ([{"args": ["corefault"]}] if pid == "C20" else []))({"quick": 500, "thorough": 20000, "widen": 3000}[tier]))(pid),
+        ] + ([{"args": ["disp"]}] if pid == "C06" else []) + ([{"args": ["corefault"]}] if pid == "C20" else [])
+          + ([{"args": ["hookconc", "-n", str({"quick": 300, "thorough": 6000, "widen": 2000}[tier]), "-len", "10"], "seed_off": 200}] if pid == "C05" else []))({"quick": 500, "thorough": 20000, "widen": 3000}[tier]))(pid),
         "rule": "the real Scheduler over the real observable repository (in-memory + hook timer, virtual clock), a "
                 "call-logging proxy and a simulated dispatcher with 1..3 slots: random scripts of user mutations, "
                 "time advances, Step / Retry (driver policy: a step that reported an error is retried), completions "
@@ -308,6 +319,9 @@ CHECKS = {
                         "user mutations are AddTask / UpdateById / Cancel (the scheduler is the only caller of MarkAsDispatched / MarkAsDone)"],
         "claim": claim,
         **({"extra_mon": {"C09": r"^case ok "}} if pid == "C06" else {}),
+        # C05: "never waiting on an idle timer while a task is scheduled" under CONCURRENT mutators is hookconc's quiescence
+        # monitor (it reports as C07): a failure there is a failure of C05's premise
+        **({"extra_mon": {"C07": r"."}} if pid == "C05" else {}),
     } for pid, claim in (
         ("C03", "PARTIAL: open known finding D3i (postponement between the scheduler's read and its mark) - the full statement is false of the code, C03_partial excludes exactly that trigger; theorems for the hook-timer configuration, the cron configuration is tied to CWorld and monitored."),
         ("C04", "hook-timer configuration: full; Retry of every error state included. Cron configuration: tied to CWorld, formal witnesses of open finding D18 (C04_D18_witness, C04_D18_runs_twice)."),
@@ -366,9 +380,9 @@ CHECKS = {
                  "the atomicity of one SQLite statement / write transaction are sampled.",
     },
     "C19": {
-        "family": "repo", "level": "proof", "modules": ["Gk.Props.C19"], "components": ["repo", "cron", "heap", "snapshot", "memspec", "next", "find", "srcfacts-clone"],
+        "family": "repo", "level": "proof", "modules": ["Gk.Props.C19"], "components": ["repo", "cron", "heap", "snapshot", "memspec", "next", "find", "srcfacts-clone", "srcfacts-lock"],
         "runs": lambda tier: (lambda n: [
-            {"args": ["srcfacts", "-facts", "clone"]},
+            {"args": ["srcfacts", "-facts", "clone,lock"]},
             {"args": ["repo", "-impl", "mem", "-scribble", "-n", str(n), "-len", "40"]},
             {"args": ["repo", "-impl", "mem", "-profile", "snapshot", "-scribble", "-n", str(n), "-len", "40"], "seed_off": 1},
             {"args": ["repo", "-impl", "ent", "-scribble", "-workers", "1", "-avoid", "like-case,json-path-key",
@@ -382,7 +396,9 @@ CHECKS = {
                 "methods on in-memory and ent, Save / Load, CronStore Pop / Peek / Schedule / Entry.Param, "
                 "volatileTaskRepo GetNext / GetById); `gkh srcfacts -facts clone` re-extracts from the current sources "
                 "that no store method returns or appends a dereferenced stored task (cron Pop excepted: it hands out "
-                "the task it removed)",
+                "the task it removed), and (`-facts lock`) that every method of the lock-protected stores is ONE critical "
+                "section — Lock, deferred Unlock, no explicit Unlock in the middle — so that the copies are taken while "
+                "nobody else can hold the originals",
         "trusted_base": COMMON_TB + ["which crossings clone is hand-transcribed into Gk/Alias.lean's flags; only the "
                                      "scribbling runs validate it"],
         "assumptions": REPO_ASSUME,
